@@ -10,6 +10,7 @@
   level of the IDF text, IEEE evaluation of `i * (1 / timestep) * 60`.
 -/
 import Ladybug.Proofs.C16Lemmas
+import Ladybug.Proofs.C16Idf
 import Ladybug.Props.C09
 
 namespace DD
@@ -289,28 +290,103 @@ theorem C16_wet_bulb_range_counterexample (h : HumType) (k : SkyTag) :
 
 example : readPlan .enthalpy .tau ≠ [] := by decide
 
+/-! ### IDF round trip, value level (fields as abstract tokens, numbers opaque) -/
+
+section value
+variable {τ ν : Type} [NumVal ν] [Tok τ ν]
+
+/-- **`from_idf(to_idf(d)) == d`.**  For every token type obeying `TokLaws` (`float(str(x)) == x`,
+    `int(str(n)) == n`, a text is its own text, `'Yes'.lower() == 'yes'`, `'No'.lower() != 'yes'`, a number
+    never prints as the empty string) and every writable design day - any name, day type among DAY_TYPES,
+    dry bulb, range >= 0, modifier type / schedule, any of the 4 humidity types with any value, pressure,
+    rain / snow flags and schedule, wind speed, direction in [0, 360], any valid date of the non-leap year,
+    daylight-saving flag, ASHRAEClearSky with clearness in [0, 1.2] or ASHRAETau / ASHRAETau2017 with any
+    optical depths - the fields written by `to_idf`, followed by any trailing text, are read by `from_idf`
+    as the same design day.  (`Writable` excludes exactly the two recorded defects: a plain `_SkyCondition`
+    and a set `wet_bulb_range`.) -/
+theorem C16_idf_roundtrip_value (L : TokLaws τ ν) (d : DesignDay ν) (W : Writable d) (tail : τ) :
+    fromIdfFields (writtenFields d tail) = .ok d :=
+  idf_roundtrip_value L d W tail
+
+/-- The location object round-trips as well (city not empty; latitude / longitude / time zone inside the
+    ranges the setters assert; the IDF form carries city, latitude, longitude, time zone, elevation only). -/
+theorem C16_location_roundtrip_value (L : TokLaws τ ν) (l : Loc ν) (hc : (l.city == "") = false)
+    (h1 : between (-90) l.lat 90 = true) (h2 : between (-180) l.lon 180 = true)
+    (h3 : between (-12) l.tz 14 = true) : locFromFields (locFields l : List τ) = .ok l :=
+  loc_roundtrip_value L l hc h1 h2 h3
+
+/-- A heating design day built from a header dictionary carries the values stated there: dry bulb and
+    (saturated) wet bulb = the DB996 / DB990 entry, range 0, wind = WS_DB996 / WD_DB996, the 21st of the
+    stated month, the pressure passed in, clear sky with clearness 0, no flags. -/
+theorem C16_ashrae_heating (L : TokLaws τ ν) (kv : List (String × τ)) (city : String) (u : Bool)
+    (p db ws wd : ν) (m : Nat) (h1 : lookup kv (if u then "DB990" else "DB996") = .ok (Tok.ofNum db))
+    (h2 : lookup kv "WS_DB996" = .ok (Tok.ofNum ws)) (h3 : lookup kv "WD_DB996" = .ok (Tok.ofNum wd))
+    (hwd : between 0 wd 360 = true) (h4 : lookup kv "Month" = .ok (Tok.ofNat m))
+    (hm : Cal.D.make m 21 false = .ok ⟨m, 21, false⟩) :
+    fromAshraeHeating kv city u p = .ok
+      { name := city ++ " Heating Design Day " ++ (if u then "99" else "99.6") ++ "% Condns DB",
+        dayType := "WinterDesignDay", db := ⟨db, NumVal.zero, "DefaultMultipliers", ""⟩,
+        hum := ⟨.wetbulb, db, p, false, false, "", .blank⟩, wind := ⟨ws, wd⟩,
+        sky := ⟨⟨m, 21, false⟩, false, .clear NumVal.zero⟩ } :=
+  ashrae_heating_value L kv city u p db ws wd m h1 h2 h3 hwd h4 hm
+
+/-- A cooling design day built from a header dictionary carries the values stated there: dry bulb = DB004 /
+    DB010, range = DBR, coincident wet bulb = WB_DB004 / WB_DB010, wind = WS_DB004 / WD_DB004, the 21st of the
+    stated month, the pressure passed in, the Tau sky of the given optical depths or the default clear sky. -/
+theorem C16_ashrae_cooling (L : TokLaws τ ν) (kv : List (String × τ)) (city : String) (u : Bool)
+    (p db rng wb ws wd one : ν) (tau : Option (ν × ν)) (m : Nat)
+    (h1 : lookup kv (if u then "DB010" else "DB004") = .ok (Tok.ofNum db))
+    (h0 : lookup kv "DBR" = .ok (Tok.ofNum rng)) (hr : 0 ≤ NumVal.toRat rng)
+    (h5 : lookup kv (if u then "WB_DB010" else "WB_DB004") = .ok (Tok.ofNum wb))
+    (h2 : lookup kv "WS_DB004" = .ok (Tok.ofNum ws)) (h3 : lookup kv "WD_DB004" = .ok (Tok.ofNum wd))
+    (hwd : between 0 wd 360 = true) (h4 : lookup kv "Month" = .ok (Tok.ofNat m))
+    (hm : Cal.D.make m 21 false = .ok ⟨m, 21, false⟩) :
+    fromAshraeCooling kv city u p tau one = .ok
+      { name := city ++ " Cooling Design Day " ++ (if u then "1" else "0.4") ++ "% Condns DB=>MWB",
+        dayType := "SummerDesignDay", db := ⟨db, rng, "DefaultMultipliers", ""⟩,
+        hum := ⟨.wetbulb, wb, p, false, false, "", .blank⟩, wind := ⟨ws, wd⟩,
+        sky := ⟨⟨m, 21, false⟩, false, match tau with
+          | some (b, t) => .tau b t false
+          | none => .clear one⟩ } :=
+  ashrae_cooling_value L kv city u p db rng wb ws wd one tau m h1 h0 hr h5 h2 h3 hwd h4 hm
+
+/-- non-vacuity: the token laws are satisfiable (free tokens) -/
+example (ν : Type) [NumVal ν] : TokLaws (FreeTok ν) ν := freeTok_laws ν
+
+end value
+
 /-! ### DDY file: list lift -/
 
 section ddy
-variable {ν : Type} [NumTok ν]
+variable {τ ν : Type} [NumVal ν] [Tok τ ν]
 
 /-- A DDY file is the location object followed by one object per design day; reading it back parses the
     first location object and every design-day object in order.  If the location and each design day
     survive their own round trip, the whole file does - for any number of design days. -/
-theorem C16_ddy_roundtrip (y : DDY ν) (tail : String)
-    (hloc : locFromFields (locFields y.loc) = .ok y.loc)
+theorem C16_ddy_roundtrip (y : DDY ν) (tail : τ)
+    (hloc : locFromFields (locFields y.loc : List τ) = .ok y.loc)
     (hday : ∀ d ∈ y.days, fromIdfFields (writtenFields d tail) = .ok d) :
     ddyFromObjects (ddyObjects y tail) = .ok y := by
   unfold ddyFromObjects ddyObjects
-  have hm : (y.days.map fun d => writtenFields d tail).mapM (fromIdfFields (ν := ν)) = .ok y.days := by
+  have hm : (y.days.map fun d => writtenFields d tail).mapM (fromIdfFields (τ := τ) (ν := ν)) = .ok y.days := by
     rw [List.mapM_map]
-    have h2 := mapM_ok_of_forall (fun d => fromIdfFields (ν := ν) (writtenFields d tail)) (fun d => d) y.days hday
+    have h2 := mapM_ok_of_forall (fun d => fromIdfFields (τ := τ) (ν := ν) (writtenFields d tail)) (fun d => d) y.days hday
     rw [List.map_id'] at h2
     exact h2
   simp [hloc, hm, bind, Except.bind, pure, Except.pure]
 
+/-- **`DDY.from_ddy_file(written) == ddy`** at object level, unconditionally in the number of design days:
+    lawful tokens, a location inside the setters' ranges, every design day writable. -/
+theorem C16_ddy_roundtrip_value (L : TokLaws τ ν) (y : DDY ν) (tail : τ) (hc : (y.loc.city == "") = false)
+    (h1 : between (-90) y.loc.lat 90 = true) (h2 : between (-180) y.loc.lon 180 = true)
+    (h3 : between (-12) y.loc.tz 14 = true) (hw : ∀ d ∈ y.days, Writable d) :
+    ddyFromObjects (ddyObjects y tail) = .ok y :=
+  C16_ddy_roundtrip y tail (loc_roundtrip_value L y.loc hc h1 h2 h3)
+    (fun d hd => idf_roundtrip_value L d (hw d hd) tail)
+
+omit [NumVal ν] in
 /-- The writer keeps every design day, in order (nothing dropped or duplicated). -/
-theorem C16_ddy_objects_length (y : DDY ν) (tail : String) : (ddyObjects y tail).2.length = y.days.length := by
+theorem C16_ddy_objects_length (y : DDY ν) (tail : τ) : (ddyObjects y tail).2.length = y.days.length := by
   simp [ddyObjects]
 
 end ddy
@@ -320,6 +396,7 @@ end ddy
   `fromAshraeHeating` / `fromAshraeCooling` (Model/DesignDay.lean) state which dictionary key feeds which
   attribute; they are compared with `DesignDay.from_ashrae_dict_heating/cooling` by the correspondence ops
   `ashrae_h` / `ashrae_c`, and the oracle checks the EPW- and STAT-derived days against the header values.
-  No theorem is claimed for them (the statement "carry the values stated there" is the definition itself). -/
+  Theorems `C16_ashrae_heating` / `C16_ashrae_cooling` above state which header entry ends up in which
+  attribute.  Which pressure / tau the EPW and STAT classes pass in is checked by the oracle (`header_days`). -/
 
 end DD
